@@ -23,7 +23,7 @@ REACT = ["ack+resp", "resp+ack", "ack", "none", "nak", "dupack+resp", "ackwrong"
          "ack+resp2", "ack+disc", "disc", "ack+foreign+resp", "ack+connect+resp", "ack+resp+dupack", "ack+resp+disc"]
 
 
-def run_script(script, nreq, seed=0, dev=0, intruder=None):
+def run_script(script, nreq, seed=0, dev=0, intruder=None, giveup=False):
     from xknx.cemi import CEMIFrame, CEMILData, CEMIMessageCode
     from xknx.exceptions import ManagementConnectionError
     from xknx.telegram import IndividualAddress, Telegram, tpci
@@ -142,12 +142,20 @@ def run_script(script, nreq, seed=0, dev=0, intruder=None):
             for i in range(nreq):
                 req = DeviceDescriptorRead(descriptor=0) if i % 2 == 0 else MemoryRead(address=0x60, count=1)
                 ev.append({"ev": "call", "id": i + 1, "kind": "DeviceDescriptorResponse" if i % 2 == 0 else "MemoryResponse", "t": now()})
+                # giveup: the caller allows one second for a request the device will not answer (it acknowledges at most) and goes on
+                # with the next one: nothing of the abandoned request may be left behind in the connection
+                upcoming = script[st["k"]] if st["k"] < len(script) else "ack+resp"
                 try:
-                    r = await conn.request(req)
+                    if giveup and upcoming in ("ack", "none"):
+                        r = await asyncio.wait_for(conn.request(req), 1.0)
+                    else:
+                        r = await conn.request(req)
                     ev.append({"ev": "ret", "id": i + 1, "out": "ok", "why": "", "kind": type(r.payload).__name__, "seq": r.tpci.sequence_number, "t": now()})
                 except ManagementConnectionError as ex:
                     ev.append({"ev": "ret", "id": i + 1, "out": "err", "why": "unexpected" if "unexpected telegram" in str(ex) else "other",
                                "kind": "", "seq": 0, "t": now()})
+                except TimeoutError:
+                    ev.append({"ev": "ret", "id": i + 1, "out": "gaveup", "why": "", "kind": "", "seq": 0, "t": now()})
                 except (Exception, asyncio.CancelledError) as ex:  # noqa: BLE001
                     ev.append({"ev": "ret", "id": i + 1, "out": "exc:" + type(ex).__name__, "why": "", "kind": "", "seq": 0, "t": now()})
                 await asyncio.sleep(0.2)
@@ -192,7 +200,8 @@ def run(ck):
     tlc.mc(ck, "mgmt/P2P_MC", require_actions=False)
     ps = plans(ck)
     intr = [(0.01, 0.05, 0.21, 0.5, 1.0, 3.2)[i % 6] if i % 3 == 1 else None for i in range(len(ps))]      # every third script with a second user
-    traces = [run_script(s, n, ck.seed, intruder=intr[i]) for i, (s, n) in enumerate(ps)]
+    gu = [i % 4 == 2 for i in range(len(ps))]                   # every fourth script with a caller that gives up after a second
+    traces = [run_script(s, n, ck.seed, intruder=intr[i], giveup=gu[i]) for i, (s, n) in enumerate(ps)]
     res = tlc.batch(ck, "mgmt/P2P_Trace", traces, min_per_shard=40)
     # rejected traces are validated again with the named deviation of the open known finding enabled
     bad = sorted(res.bad)
@@ -212,7 +221,7 @@ def run(ck):
             e2 = t[l2 - 1] if 0 < l2 <= len(t) else None
             key = {"script": ps[idx][0][:8], "nreq": ps[idx][1], "rejected": {k: v for k, v in (e2 or {}).items() if k != "t"}}
             what = f"management trace rejected at event {l2}: {e2}; before: {t[max(0, l2 - 7):l2 - 1]} (script {ps[idx][0][:8]})"
-        ck.violation(key, what, {"script": ps[idx][0], "nreq": ps[idx][1], "intruder": intr[idx], "trace": t, "rejected_at": l2})
+        ck.violation(key, what, {"script": ps[idx][0], "nreq": ps[idx][1], "intruder": intr[idx], "giveup": gu[idx], "trace": t, "rejected_at": l2})
     muts = []
     for i, tr in enumerate(traces[:400]):
         if i in res.bad:
@@ -246,7 +255,7 @@ def replay(ck, path):
     import json
 
     d = json.loads(open(path).read())["replay"]
-    t = run_script(d["script"], d["nreq"], ck.seed, intruder=d.get("intruder"))
+    t = run_script(d["script"], d["nreq"], ck.seed, intruder=d.get("intruder"), giveup=d.get("giveup", False))
     res = tlc.batch(ck, "mgmt/P2P_Trace", [t])
     l = res.bad.get(0)
     print("trace:", t["ev"][:60], "\nrejected at:", l, t["ev"][l - 1] if l else None)
